@@ -36,15 +36,15 @@ class BuildFailed(Exception):
         self.log = log
 
 
-def prophyc_cpp(text, workdir, name='sch', full=True, raw=False, python=False, files=None, patch=None):
+def prophyc_cpp(text, workdir, name='sch', full=True, raw=False, python=False, files=None, patch=None, fmt='prophy'):
     """Run prophyc for the C++ back-ends in-process. Returns (gen_dir, nodes)."""
     from . import pyrt
-    src = os.path.join(workdir, name + '.prophy')
+    src = os.path.join(workdir, name + ('.prophy' if fmt == 'prophy' else '.xml'))
     with open(src, 'w') as f:
         f.write(text)
     gen = os.path.join(workdir, 'gen_' + name)
     os.makedirs(gen)
-    args = ['--quiet']
+    args = ['--quiet'] + (['--isar'] if fmt == 'isar' else [])
     if full:
         args += ['--cpp_full_out', gen]
     if raw:
